@@ -770,6 +770,23 @@ theorem builder_complete_nested (v : Variant) (env : Env) (a : Kvs) (r : Cfg) :
     obtain ⟨dk, tk, e1, e2, e3⟩ := mk_keys hpre
     exact ⟨pre, dk, tk, mk_get hr hnd (v := pre) (by simp), e1, e2, e3⟩
 
+/-- **the `oneof` verdict depends on the resulting field values only** — not on how they were passed
+(keyword, positional, mixed: all are the same field assignment `construct` models): the constructor of
+a `@oneof` class succeeds iff at most one field of the constructed object is set. -/
+theorem oneof_verdict_depends_on_fields_only {env : Env} {cls : String} {kw kvs : Kvs}
+    (hc : cls = "BackboneConfig" ∨ cls = "HeadConfig") (h : construct (env.cls cls) kw = .ok (.node kvs)) :
+    (mk env cls kw).toBool = decide (countSet kvs ≤ 1) := by
+  rcases hc with rfl | rfl <;>
+  · unfold mk
+    rw [h]
+    have hr : ∀ k : Kvs, runRules k [] = .ok () := fun k => by rw [runRules]
+    simp only [fieldRules, classCheck]
+    by_cases hgt : countSet kvs > 1
+    · have : ¬ countSet kvs ≤ 1 := by omega
+      simp [hgt, this, Except.toBool]; rw [hr]
+    · have : countSet kvs ≤ 1 := by omega
+      simp [hgt, this, Except.toBool]; rw [hr]
+
 /-! ## attribute assignment on an existing object -/
 
 theorem ruleOf_mem {cls f : String} {r : Rule} (h : ruleOf cls f = some r) : (f, r) ∈ fieldRules cls := by
